@@ -50,6 +50,7 @@ public:
     static QXmppConfiguration configFromPlan(const Plan &);
     void createClient(QXmppClient::InitialExtensions ext);
     void connectClient();
+    void resolveDns();                              // answer pending (simulated) SRV lookups
 
     // scheduler primitives
     SimLink *link() const { return links.isEmpty() ? nullptr : links.last(); }
